@@ -531,7 +531,10 @@ def explore(run, tier, seed):
         extra = POOLS_QUICK[1:][seed % (len(POOLS_QUICK) - 1)]
         plans = [(pools[0], 4, [1, 2], 3), (pools[0], 3, [1, 2], 4), (extra, 3, [1, 2], 3)]
     else:
-        plans = [(p, 5, [1, 2, 3], 4) for p in ["NNG", "NRM", "GTL"]] + [("NNGR", 4, [1, 2], 4), ("NNG", 4, [1, 2], 5)]
+        # about 30 minutes on 16 cores: one pool on the larger grid with three quarter values to depth 4, every other
+        # pool (all seven classes occur) to depth 3-4 on times 0..3, four objects to depth 3, and depth 5 on times 0..2
+        plans = [("NNG", 5, [1, 2, 3], 4), ("NRM", 4, [1, 2], 4), ("GTL", 4, [1, 2], 4), ("NML", 4, [1, 2], 3),
+                 ("RTG", 4, [1, 2], 3), ("NNS", 4, [1, 2], 3), ("NNGR", 4, [1, 2], 3), ("NNG", 3, [1, 2], 5)]
     for pool, nT, Q, depth in plans:
         init = [dict(pool=pool, hist=[], T=nT, Q=Q)]
         explorer.bfs(run, "pool=%s,T=0..%d,Q=%s" % (pool, nT - 1, Q), init, depth,
